@@ -18,9 +18,9 @@ SCHEMA = {
     "deep_sec": {"sub-a": {"x_y": None, "z": None}, "w": None},
 }
 SCALARS = [0, 1, 2, 3, "a", "b", "float32", "float64", True, False, None, "", "x-y"]
-DEV_OK = ["cpu", "cpu", "CPU", "cpu"]
+DEV_OK = ["cpu", "cpu", "CPU", "cpu", "cpu:0", None]
 DEV_BAD = ["cuda", "cuda:0", "CUDA:1", "gpu", "GPU", "mps", "tpu", "", "bogus", "xla:0", 0, 3, -1, True, "cuda:1"]
-DEV_ODD = [None, "xcpu", {"a": "cpu"}, {"a": 1}, "cpu:0"]
+DEV_ODD = ["xcpu", {"a": "cpu"}, {"a": 1}, "cpu:", "cpu:x", "not-a-cpu", "cpux", " cpu", "cpu:1", {}]
 
 
 def spell(r, k):
@@ -139,12 +139,76 @@ def mk_sop(r):
 
 
 def mk_with(r):
-    o = mk_set(r, "with")
-    body = [] if r.random() < 0.6 else [mk_sop(r) for _ in range(r.choice([1, 2, 3]))]
+    x = r.random()
+    tag = "with" if r.random() < 0.55 else "withx"
+    if x < 0.25:
+        o = mk_dup_set(r, tag)
+    else:
+        o = mk_set(r, tag)
+    y = r.random()
+    if y < 0.45:
+        body = []
+    elif y < 0.6 and tag == "withx":
+        body = [["raise"]]
+    else:
+        body = [mk_sop(r) for _ in range(r.choice([1, 2, 3]))]
+        if tag == "withx" and r.random() < 0.5:
+            body.append(["raise"])
     return o + [body]
 
 
+def mk_dup_set(r, tag):
+    """one call that writes the same entry twice (mapping then keyword form, possibly under the
+    other spelling) or a parent and a child: the order of the undo steps matters"""
+    kind = r.choice(["same", "same", "child-parent", "parent-child"])
+    cands = [p for p in LEAF_PATHS if not any(c.startswith("_") or c.endswith("_") for c in p)]
+    p = r.choice(cands)
+    if kind == "same":
+        return [tag, {".".join(spell(r, k) for k in p): scalar(r)}, [["__".join(spell(r, k) for k in p), scalar(r)]]]
+    secs = [(q, sch) for q, sch in SEC_PATHS]
+    q, sch = r.choice(secs)
+    leaf = r.choice([k for k, v in sch.items() if v is None])
+    child = ".".join(spell(r, k) for k in q + (leaf,))
+    parent = ".".join(spell(r, k) for k in q)
+    if kind == "child-parent":
+        return [tag, {child: scalar(r), parent: r.choice([scalar(r), section_value(r, sch)])}, []]
+    return [tag, {parent: section_value(r, sch), child: scalar(r)}, []]
+
+
+def gen_respell_body_seq(r):
+    """a with-block whose body rebuilds the store (refresh) and brings the touched key back
+    under the other spelling (update_defaults / set): the undo steps of __exit__ must find the
+    entry under the spelling the store holds at exit"""
+    cands = [p for p in LEAF_PATHS if any("-" in c or "_" in c for c in p)]
+    p = r.choice(cands)
+    a = [spell(r, k) for k in p]
+    from .impl_C19 import other_spelling
+    b = [other_spelling(k) for k in a]
+    ops = []
+    if r.random() < 0.5:
+        ops.append(["upd", tree_for_paths(r, r.sample(LEAF_PATHS, 2))])
+    if r.random() < 0.6:
+        ops.append(["set", {".".join(a): scalar(r)}, []])
+    body = [["refresh", []]]
+    bt: dict = {}
+    d = bt
+    for i, k in enumerate(b):
+        if i == len(b) - 1:
+            d[k] = scalar(r)
+        else:
+            d = d.setdefault(k, {})
+    body.append(["upd", bt] if r.random() < 0.6 else ["set", {".".join(b): scalar(r)}, []])
+    if r.random() < 0.3:
+        body.append(["raise"])
+    ops.append([r.choice(["with", "withx"]), {".".join(a): scalar(r)}, [], body])
+    for _ in range(r.randint(0, 2)):
+        ops.append(mk_sop(r))
+    return ops
+
+
 def gen_schema_seq(r, nmin=5, nmax=12):
+    if r.random() < 0.06:
+        return gen_respell_body_seq(r)
     ops = []
     if r.random() < 0.8:
         ops.append(["upd", tree_for_paths(r, r.sample(LEAF_PATHS, r.randint(2, 8)))])
@@ -195,7 +259,10 @@ def gen_wild_seq(r, nmin=4, nmax=10):
             while s[0] != "set":
                 s = mk_wild_sop(r)
             body = [] if r.random() < 0.5 else [mk_wild_sop(r) for _ in range(r.choice([1, 2]))]
-            ops.append(["with", s[1], s[2], body])
+            tag = r.choice(["with", "withx"])
+            if tag == "withx" and r.random() < 0.4:
+                body.append(["raise"])
+            ops.append([tag, s[1], s[2], body])
         else:
             ops.append(mk_wild_sop(r))
     return ops
@@ -250,5 +317,50 @@ def gen_globals_seq(r, nmin=5, nmax=10):
         elif x < 0.82:
             ops.append(["refresh", []])
         else:
-            ops.append(gset("with") + [[] if r.random() < 0.6 else [gset()]])
+            tag = r.choice(["with", "withx"])
+            body = [] if r.random() < 0.5 else [gset()]
+            if tag == "withx" and r.random() < 0.5:
+                body.append(["raise"])
+            ops.append(gset(tag) + [body])
     return ops
+
+
+# ------------------------------------------------------------------------------ direct update / merge
+def gen_direct(r):
+    """("update", old, new, priority, defaults) or ("merge", dicts): the helper functions behind
+    update_defaults and refresh, called directly (all three priorities)"""
+    from .impl_C19 import norm
+    from .oracle_C19 import ref_get
+
+    def tree(n):
+        return tree_for_paths(r, [r.choice(LEAF_PATHS) for _ in range(n)])
+    if r.random() < 0.25:
+        return ["merge", [tree(r.choice([1, 2, 4])) for _ in range(r.choice([1, 2, 3]))]]
+    prio = r.choice(["old", "old", "new", "new-defaults"])
+    old = tree(r.choice([0, 2, 4, 6]))
+    new = tree(r.choice([1, 2, 4]))
+    if r.random() < 0.2:
+        k = r.choice(["viz", "io-opts", "io_opts", "deep_sec"])
+        k = next((x for x in new if norm(x) == norm(k)), k)
+        new[k] = r.choice([{}, 3, None])
+    dfl = None
+    if prio == "new-defaults":
+        dfl = tree(r.choice([1, 3, 5]))
+        # make "still equal to the default" frequent
+        for p in LEAF_PATHS:
+            f, v = ref_get(old, p)
+            if f and not isinstance(v, dict) and r.random() < 0.5:
+                d = dfl
+                ok = True
+                for i, k in enumerate(p[:-1]):
+                    k2 = next((x for x in d if norm(x) == norm(k)), None) or spell(r, k)
+                    if not isinstance(d.get(k2, {}), dict):
+                        ok = False
+                        break
+                    d = d.setdefault(k2, {})
+                if ok:
+                    k2 = next((x for x in d if norm(x) == norm(p[-1])), None) or spell(r, p[-1])
+                    if not isinstance(d.get(k2), dict):
+                        d[k2] = v
+    return ["update", old, new, prio, dfl]
+
